@@ -17,6 +17,8 @@ FIRST = {
     # round 2 (seeds told what round 1 had already taken)
     "C01-2": "caught (replay)", "C02-2": "caught (replay)", "C03-2": "missed", "C04-2": "caught (replay)", "C05-2": "caught (replay)",
     "C06-2": "caught (replay)", "C07-2": "missed", "C08": "caught (replay)",
+    "C09-2": "caught (replay)", "C10-2": "caught (replay)", "C11-2": "broken correspondence, no-failing-input-found", "C12-2": "caught (replay)",
+    "C13-2": "missed", "C14-2": "broken correspondence, no-failing-input-found", "C15-2": "caught (replay)",
 }
 
 
